@@ -1,1 +1,109 @@
-import Hive
+/-
+  Property C02 — charger, queue and parking-stall counts match the vehicles using them.
+
+  `inv02` (Hive/Inv.lean) is the executable predicate the driver evaluates on implementation
+  states: for every station and installed plug type `avail + #charging = total` (so
+  `0 ≤ avail ≤ total`) and `enq = #queueing`, where "charging" counts vehicles in
+  `ChargingStation` there and vehicles in `ChargingBase` at a base attached to that station;
+  for every base `avail + #(ReserveBase ∪ ChargingBase) = total`.
+
+  Theorems: the invariant is preserved by every phase of a step, for every environment
+  (any physics, router, cell hierarchy), every instruction list with at most one instruction per
+  vehicle (what the step pipeline hands to `apply_instructions`, see C09), accepted or rejected,
+  and therefore holds in every reachable state.
+-/
+import Proofs.C02
+import Proofs.Run
+
+namespace Hive
+namespace C02
+
+/-- the invariant is an invariant of runs, for every environment -/
+theorem runInv (env : Env) : RunInv env (fun s => inv02 s = true) where
+  applied s a h := by
+    rw [inv02_iff] at h ⊢
+    exact Inv02On_congr rfl rfl h
+  transition hwf hi hveh h := by
+    rw [inv02_iff] at hi ⊢
+    exact transition_inv02 hwf hi hveh h
+  update hwf hi hveh h := by
+    rw [inv02_iff] at hi ⊢
+    exact (defaultUpdate_inv02 hwf hi hveh h).1
+  tick s h := by
+    rw [inv02_iff] at h ⊢
+    exact Inv02On_congr rfl rfl h
+  arrival _ hi _ _ h := by
+    rw [inv02_iff] at hi ⊢
+    unfold Sim.addRequest at h
+    split at h
+    · cases h
+    · cases h; exact Inv02On_congr rfl rfl hi
+  cancel _ hi h := by
+    rw [inv02_iff] at hi ⊢
+    obtain ⟨_, _, hs, hb, hv, _, _⟩ := Sim.removeRequest_fields h
+    rw [hv]
+    exact Inv02On_congr hs hb hi
+
+/-- `apply_instructions`: any instructions (one per vehicle), accepted or rejected -/
+theorem instructions (env : Env) {w w' : World} {is : List Instr}
+    (hn : (is.map Instr.vehicle).Nodup) (hwf : w.sim.WF) (h : inv02 w.sim = true)
+    (hap : applyInstructions env w is = some w') : inv02 w'.sim = true :=
+  (applyInstructions_inv (runInv env).toStepInv hn hwf h hap).1
+
+/-- `perform_vehicle_state_updates`: arrivals at full stations, vehicles running out of energy,
+    default transitions, charging, queueing — for any oracle answers -/
+theorem updates (env : Env) {w : World} (hwf : w.sim.WF) (h : inv02 w.sim = true) :
+    inv02 (vehicleUpdates env w).sim = true :=
+  (vehicleUpdates_inv (runInv env).toStepInv hwf h).1
+
+/-- **C02**: the counts match in every state reachable from a well-formed initial state in which
+    they match, by any history of instruction phases, update phases, ticks, request arrivals and
+    cancellations -/
+theorem reachable (env : Env) {s0 s : Sim} (hwf : s0.WF) (h0 : inv02 s0 = true)
+    (h : Reachable env s0 s) : inv02 s = true :=
+  reachable_inv (runInv env) hwf h0 h
+
+/-- a freshly loaded simulation satisfies the invariant: every vehicle idle, every counter full -/
+theorem initial {s : Sim} (hv : ∀ v ∈ s.vehicles, v.act.free = true)
+    (hs : ∀ st ∈ s.stations, ∀ cs ∈ st.plugs, cs.avail = cs.total ∧ cs.enq = 0)
+    (hb : ∀ b ∈ s.bases, b.avail = b.total) : inv02 s = true := by
+  rw [inv02_iff]
+  have hz : ∀ p : Vehicle → Bool, (∀ v ∈ s.vehicles, v.act.free = true → p v = false) → s.vehicles.countP p = 0 := by
+    intro p hp
+    rw [List.countP_eq_zero]
+    intro v hv'
+    simp [hp v hv' (hv v hv')]
+  refine ⟨?_, ?_⟩
+  · intro st hst cs hcs
+    have h1 : s.vehicles.countP (holdsPlug s st.id cs.id) = 0 := hz _ (by
+      intro v _ hf; cases h : v.act <;> simp_all [holdsPlug, Act.free])
+    have h2 : s.vehicles.countP (queuesFor st.id cs.id) = 0 := hz _ (by
+      intro v _ hf; cases h : v.act <;> simp_all [queuesFor, Act.free])
+    rw [h1, h2]
+    exact ⟨by simp [(hs st hst cs hcs).1], (hs st hst cs hcs).2⟩
+  · intro b hb'
+    have h3 : s.vehicles.countP (holdsStall b.id) = 0 := hz _ (by
+      intro v _ hf; cases h : v.act <;> simp_all [holdsStall, Act.free])
+    rw [h3]
+    simp [hb b hb']
+
+/-! ### non-vacuity: a concrete state with contention satisfies the hypotheses -/
+
+private def p0 : Pos := ⟨0, 0⟩
+private def plug (avail enq : Nat) : ChargerState := ⟨0, true, 50, 2, avail, 0, enq⟩
+private def veh (i : Nat) (a : Act) : Vehicle := ⟨i, p0, [], 0, ⟨1, 0, 0⟩, a, .autonomous, 0, 0⟩
+/-- two plugs: one taken by a vehicle at the station, one through the base; one vehicle queues;
+    the base has two stalls, one parked vehicle and one charging vehicle -/
+private def ex : Sim :=
+  { time := 0, dt := 60,
+    vehicles := [veh 0 (.chargingStation 0 0), veh 1 (.chargingBase 0 0), veh 2 (.chargeQueueing 0 0 0),
+                 veh 3 (.reserveBase 0), veh 4 (.idle 0)],
+    stations := [⟨0, p0, [], [plug 0 1], [], 0, 0, 0⟩],
+    bases := [⟨0, p0, [], 2, 0, some 0⟩],
+    requests := [], applied := [], vIdx := ⟨[], []⟩, rIdx := ⟨[], []⟩, sIdx := ⟨[], []⟩, bIdx := ⟨[], []⟩ }
+
+example : inv02 ex = true := by decide
+example : ex.WF := ⟨by decide, by decide, by decide, by decide, by intro st hst; simp [ex] at hst; subst hst; decide⟩
+
+end C02
+end Hive
